@@ -1,1 +1,47 @@
-(* placeholder *) From Klepto Require Import Keys.
+(* C11  Ignored arguments never influence the key; all others still do. *)
+From Klepto Require Import PyVal KFacts Keys KeygenFacts KeyProps.
+
+(* (a) calls that differ only in arguments selected by the ignore specification - by name, by
+   positional index (cross-populated with the name), '*' for all extra positionals, '**' for all
+   extra keywords - share one key, under every raw keymap configuration *)
+Theorem C11_ignored_do_not_matter : forall sig ignored k order1 order2 c1 c2 b1 b2,
+  wf_sig sig -> wf_call c1 -> wf_call c2 -> order_ok sig ignored order1 -> order_ok sig ignored order2 ->
+  bind sig c1 = Some b1 -> bind sig c2 = Some b2 -> differ_only_in_ignored sig ignored b1 b2 ->
+  keymap_raw k (fst (keygen_ord sig ignored order1 c1)) (snd (keygen_ord sig ignored order1 c1)) =
+  keymap_raw k (fst (keygen_ord sig ignored order2 c2)) (snd (keygen_ord sig ignored order2 c2)).
+Proof. exact key_ignores. Qed.
+
+(* (b) every argument not selected still discriminates: equal key material forces all non-ignored
+   arguments to be equal (combine with the injectivity theorems of C10 for the keymap) *)
+Theorem C11_others_still_discriminate : forall sig ignored b1 b2 c1 c2, wf_sig sig -> wf_call c1 -> wf_call c2 ->
+  bind sig c1 = Some b1 -> bind sig c2 = Some b2 ->
+  spec_args sig ignored b1 = spec_args sig ignored b2 ->
+  (forall n, spec_map sig ignored b1 n = spec_map sig ignored b2 n) ->
+  (forall n, in_sig sig n = true -> selected sig ignored n = false -> kget (b_named b1) n = kget (b_named b2) n) /\
+  (ig_starstar ignored = false -> forall n, in_sig sig n = false -> str_in n (ig_names1 ignored) = false ->
+     kget (b_extra_kw b1) n = kget (b_extra_kw b2) n) /\
+  (ig_star ignored = false -> length (b_extra_pos b1) = length (b_extra_pos b2) /\
+     forall j, nat_in (length (sig_explicit sig) + j) (ign_idx ignored) = false ->
+               nth_error (b_extra_pos b1) j = nth_error (b_extra_pos b2) j).
+Proof. exact spec_discriminates. Qed.
+
+(* the selection made by names and by indices coincide on named parameters *)
+Theorem C11_index_and_name_agree : forall sig ignored i n, NoDup (sig_explicit sig) -> nth_error (sig_explicit sig) i = Some n ->
+  nat_in i (index_to_ignore (sig_explicit sig) ignored) = selected sig ignored n.
+Proof. exact selected_at. Qed.
+
+(* non-vacuity, including the keyword-only case repaired by the fix for D4:
+   def f(a, *, k=3, **kw), ignore='**': f(1, k=5) and f(1, k=7) now get different keys, while
+   f(1, k=5, e=1) and f(1, k=5, e=2) share one *)
+Definition sa := [97]. Definition sk := [107]. Definition se := [101].
+Definition sig4 := mkSig [(sa, None)] false [(sk, Some (VInt 3))] true.
+Example C11_witness :
+  let ig := [IName starstar] in let k := mkK false true false in
+  key_of sig4 ig k ([VInt 1], [(sk, VInt 5)]) <> key_of sig4 ig k ([VInt 1], [(sk, VInt 7)]) /\
+  key_of sig4 ig k ([VInt 1], [(sk, VInt 5); (se, VInt 1)]) = key_of sig4 ig k ([VInt 1], [(sk, VInt 5); (se, VInt 2)]) /\
+  key_of sig4 [IIdx 0] k ([VInt 1], []) = key_of sig4 [IName sa] k ([], [(sa, VInt 9)]).
+Proof. cbv zeta. repeat split; vm_compute; congruence. Qed.
+
+Print Assumptions C11_ignored_do_not_matter.
+Print Assumptions C11_others_still_discriminate.
+Print Assumptions C11_index_and_name_agree.
